@@ -47,6 +47,8 @@ type Inst struct {
 	HasScope bool
 	HasProv  bool
 
+	Handle int // vrt.Track handle of the service object
+
 	Closed    int
 	CloseSeq  []int
 	CloseErr  bool     // Close() returns an error
@@ -182,6 +184,7 @@ func mk(b *Base, slot, variant, kind int, args ...any) (err error, isNil bool) {
 	recordArgs(in, args)
 	in.CloseErr = CloseErrMask&(1<<slot) != 0
 	in.Seq = tick()
+	in.Handle = vrt.Track(b)
 	Log = append(Log, in)
 	Events = append(Events, Event{in.Seq, "ctor", in, slot})
 	b.inst = in
@@ -194,6 +197,7 @@ func mkAux(b *Base, primary *Base) {
 	in := &Inst{ID: len(Log), Slot: p.Slot, Variant: p.Variant, Kind: p.Kind, Aux: true, Primary: p}
 	in.CloseErr = CloseErrAux&(1<<p.Slot) != 0
 	in.Seq = tick()
+	in.Handle = vrt.Track(b)
 	Log = append(Log, in)
 	b.inst = in
 }
